@@ -571,8 +571,21 @@ int yr_arena_load_stream(YR_STREAM* stream, YR_ARENA** arena)
 
   FAIL_ON_ERROR(yr_arena_create(hdr.num_buffers, 10485, &new_arena))
 
+  // The buffers are stored one after the other right after the buffer table,
+  // the offsets recorded in the table must agree with the sizes.
+  uint64_t offset = sizeof(YR_ARENA_FILE_HEADER) +
+                    sizeof(YR_ARENA_FILE_BUFFER) * hdr.num_buffers;
+
   for (int i = 0; i < hdr.num_buffers; ++i)
   {
+    if (buffers[i].offset != offset)
+    {
+      yr_arena_release(new_arena);
+      return ERROR_CORRUPT_FILE;
+    }
+
+    offset += buffers[i].size;
+
     if (buffers[i].size == 0)
       continue;
 
